@@ -27,16 +27,16 @@ def Disk.damage (d : Disk) : Damage → Disk
     match d.patches with
     | none => d
     | some p =>
-      match p.arts n with
+      match p.arts.lookup n with
       | none => d
-      | some _ => { d with patches := some { p with arts := updArts p.arts n (some .emptyDir) } }
+      | some _ => { d with patches := some { p with arts := setArt p.arts n .emptyDir } }
   | .artSet n b =>
     match d.patches with
     | none => d
     | some p =>
-      match p.arts n with
+      match p.arts.lookup n with
       | none => d
-      | some _ => { d with patches := some { p with arts := updArts p.arts n (some (.file b)) } }
+      | some _ => { d with patches := some { p with arts := setArt p.arts n (.file b) } }
   | .dirDel n => d.deleteArtifacts n
   | .pdirDel => { d with patches := none }
   | .junk name =>
